@@ -645,7 +645,7 @@ def main(prop, tier, seed):
         if prop == "C08":
             c08(run, drv, rng, 150 if thorough else 24)
         elif prop == "C09":
-            c09(run, drv, rng, 40 if thorough else 6, thorough)
+            c09(run, drv, rng, 16 if thorough else 6, thorough)
         elif prop == "C10":
             c10_solvers(run, drv, rng, 1500 if thorough else 200)
             c10_charnock(run, drv, rng, 600 if thorough else 80)
